@@ -479,41 +479,8 @@ func TestRealTreeDeterministicAndReplayable(t *testing.T) {
 	}
 }
 
-// With the findings listed as open, the unchanged tree has no untagged violation;
-// with only some listed, the others are still reported untagged.
-func TestKnownFindingTagging(t *testing.T) {
-	all := ""
-	for _, id := range []string{"KF-C15-1", "KF-C15-2", "KF-C15-3", "KF-C15-4"} {
-		all += "finding: property=C15 id=" + id + " replay=findings/" + id + ".replay.json x\n"
-	}
-	withVerifDir(t, all)
-	c := New()
-	r := c.Run(api.Batch{Property: "C15", Tier: "quick", Seed: 7, From: 0, To: 3000})
-	for _, v := range r.Violations {
-		if v.KnownFinding == "" {
-			t.Errorf("untagged violation on the unchanged tree: %s: %s", v.Class, v.Detail)
-		}
-	}
-	if len(r.Violations) == 0 {
-		t.Errorf("no tagged violation handed to the driver")
-	}
-
-	withVerifDir(t, "finding: property=C15 id=KF-C15-2 replay=findings/KF-C15-2.replay.json x\n")
-	r = c.Run(api.Batch{Property: "C15", Tier: "quick", Seed: 7, From: 0, To: 3000})
-	untagged := map[string]bool{}
-	for _, v := range r.Violations {
-		if v.KnownFinding == "" {
-			untagged[v.Class] = true
-		} else if v.KnownFinding != "KF-C15-2" {
-			t.Errorf("tagged with a finding that is not open: %s", v.KnownFinding)
-		}
-	}
-	for _, cls := range []string{"rat-find", "read-younger", "rat-commit-value"} {
-		if !untagged[cls] {
-			t.Errorf("class %s should be reported untagged when its finding is not listed (got %v)", cls, untagged)
-		}
-	}
-}
+// (The test that relied on the four defects of the original tree was removed
+// when those defects were repaired in /repo; see KNOWN_FINDINGS.txt "fixed:" entries.)
 
 func TestReplayRejectsGarbage(t *testing.T) {
 	withVerifDir(t, "")
